@@ -442,7 +442,9 @@ def h_for_equation(eng):
     gm, cas = install_loops(eng, log)
     A = AstFactory(eng)
     wide = getattr(eng, "tier", "quick") == "thorough"
-    nk, nfree = eng.choice(6 if wide else 4), eng.choice(5 if wide else 3)
+    if wide:
+        eng.max_paths = max(eng.max_paths, 20000)      # the wider enumeration needs more than the default path budget
+    nk, nfree = eng.choice(5 if wide else 4), eng.choice(4 if wide else 3)
     eng.input("indexed_symbols", nk)
     eng.input("free_symbols", nfree)
     fx = _loop_fixture(eng, gm, cas, A, nk, nfree, False)
